@@ -22,8 +22,29 @@ var wdStarted atomic.Int64
 // petWatchdog is called at the start of every bubble.
 func petWatchdog() {
 	if wdStarted.Load() != 0 {
-		wdStarted.Store(time.Now().UnixNano())
+		now := time.Now()
+		wdStarted.Store(now.UnixNano())
+		heartbeat(now)
 	}
+}
+
+// The in-process watchdog is a goroutine: with GOMAXPROCS=1 and asynchronous
+// preemption off, a loop without a function call in the code under test never
+// lets it run. The parent therefore watches a heartbeat file as well: its
+// modification time is refreshed (at most once a second) whenever an
+// execution starts; a worker whose heartbeat is older than the watchdog
+// period plus a grace is killed from outside (cmd/verifctl runMonitored).
+var (
+	hbPath string
+	hbLast atomic.Int64
+)
+
+func heartbeat(now time.Time) {
+	if hbPath == "" || now.UnixNano()-hbLast.Load() < int64(time.Second) {
+		return
+	}
+	hbLast.Store(now.UnixNano())
+	os.Chtimes(hbPath, now, now)
 }
 
 // Exit codes of a worker process.
@@ -68,6 +89,12 @@ func WorkerMain(t *testing.T, e Engine) {
 	w := bufio.NewWriter(out)
 	defer w.Flush()
 
+	if hb := os.Getenv("VERIF_HEARTBEAT"); hb != "" {
+		if f, err := os.Create(hb); err == nil {
+			f.Close()
+			hbPath = hb
+		}
+	}
 	info := e.Info(cfg.Property)
 	wdSec := info.WatchdogSec
 	if wdSec <= 0 {
@@ -111,6 +138,8 @@ func WorkerMain(t *testing.T, e Engine) {
 		epoch.Add(1)
 		t0 := time.Now()
 		started.Store(t0.UnixNano())
+		hbLast.Store(0)
+		heartbeat(t0)
 		o := e.Execute(t, cfg.Property, plan, cfg.Trace)
 		started.Store(0)
 		if o.Evals == 0 {
